@@ -243,7 +243,7 @@ let optok_of = function
   | "pow" -> OPow | "tilde" -> OTilde | "eq" -> OEq | "ne" -> ONe | "lt" -> OLt | "lteq" -> OLe | "gt" -> OGt
   | "gteq" -> OGe | "lparen" -> OLParen | "rparen" -> ORParen | "lbracket" -> OLBracket | "rbracket" -> ORBracket
   | "lbrace" -> OLBrace | "rbrace" -> ORBrace | "dot" -> ODot | "comma" -> OComma | "colon" -> OColon
-  | "pipe" -> OPipe | "assign" -> OAssign | s -> failwith ("optok " ^ s)
+  | "pipe" -> OPipe | "assign" -> OAssign | "semicolon" -> OSemicolon | s -> failwith ("optok " ^ s)
 let tok_of_sx = function
   | L [A "name"; s] -> KName (str_of_sx s)
   | L [A "int"; A z] -> KInt (z_of_int (ios z))
@@ -281,17 +281,61 @@ let rec show_expr e =
   | EFilter (a, s, args) -> "(F " ^ show_expr a ^ " " ^ sstr "s" s ^ sp args ^ ")"
   | ETest (a, s, args) -> "(is " ^ show_expr a ^ " " ^ sstr "s" s ^ sp args ^ ")"
 let show_pres (r : expr pres) = match r with
-  | ROk (e, _) -> "ok " ^ show_expr e | RErr -> "err" | RUnsup -> "unsup" | RFuel -> "fuel"
+  | ROk (e, _) -> "ok " ^ show_expr e | RErr _ -> "err" | RUnsup -> "unsup" | RFuel -> "fuel"
 
 let optok_name = function
   | OAdd -> "add" | OSub -> "sub" | OMul -> "mul" | ODiv -> "div" | OFloorDiv -> "floordiv" | OMod -> "mod"
   | OPow -> "pow" | OTilde -> "tilde" | OEq -> "eq" | ONe -> "ne" | OLt -> "lt" | OLe -> "lteq" | OGt -> "gt"
   | OGe -> "gteq" | OLParen -> "lparen" | ORParen -> "rparen" | OLBracket -> "lbracket" | ORBracket -> "rbracket"
   | OLBrace -> "lbrace" | ORBrace -> "rbrace" | ODot -> "dot" | OComma -> "comma" | OColon -> "colon"
-  | OPipe -> "pipe" | OAssign -> "assign"
+  | OPipe -> "pipe" | OAssign -> "assign" | OSemicolon -> "semicolon"
 let show_tok = function
   | KName s -> "(name " ^ sstr "s" s ^ ")" | KInt z -> "(int " ^ zstr z ^ ")" | KStr s -> "(str " ^ sstr "s" s ^ ")"
   | KFloat -> "float" | KOp o -> optok_name o
+
+(* ---- statements (C01 K-parse) ---- *)
+let stok_of_sx = function
+  | L [A "data"; s; A l] -> (SData (str_of_sx s), nat_of_int (ios l))
+  | L [A "vb"; A l] -> (SVarBegin, nat_of_int (ios l))
+  | L [A "ve"; A l] -> (SVarEnd, nat_of_int (ios l))
+  | L [A "bb"; A l] -> (SBlockBegin, nat_of_int (ios l))
+  | L [A "be"; A l] -> (SBlockEnd, nat_of_int (ios l))
+  | L [A "t"; t; A l] -> (STok (tok_of_sx t), nat_of_int (ios l))
+  | _ -> failwith "stok"
+let rec show_target = function
+  | TgName x -> "(tn " ^ sstr "s" x ^ ")"
+  | TgNS (x, a) -> "(tns " ^ sstr "s" x ^ " " ^ sstr "s" a ^ ")"
+  | TgTuple ts -> "(tt" ^ String.concat "" (List.map (fun t -> " " ^ show_target t) ts) ^ ")"
+let show_chain f = "(chain" ^ String.concat "" (List.map (fun (n, args) -> " (" ^ sstr "s" n ^ String.concat "" (List.map (fun e -> " " ^ show_expr e) args) ^ ")") f) ^ ")"
+let b01 b = if b then "1" else "0"
+let strs l = "(" ^ String.concat " " (List.map (sstr "s") l) ^ ")"
+let exprs l = "(" ^ String.concat " " (List.map show_expr l) ^ ")"
+let rec show_stmt s =
+  let body b = "(" ^ String.concat " " (List.map show_stmt b) ^ ")" in
+  match s with
+  | SOutput items -> "(out" ^ String.concat "" (List.map (function OData d -> " (data " ^ sstr "s" d ^ ")" | OExpr e -> " (e " ^ show_expr e ^ ")") items) ^ ")"
+  | SFor (tg, it, b, el, test, r) ->
+      "(for " ^ show_target tg ^ " " ^ show_expr it ^ " " ^ body b ^ " " ^ body el ^ " " ^ (match test with Some t -> show_expr t | None -> "_") ^ " " ^ b01 r ^ ")"
+  | SIf (t, b, elifs, el) ->
+      "(if " ^ show_expr t ^ " " ^ body b ^ " (" ^ String.concat " " (List.map (fun (t2, b2) -> "(" ^ show_expr t2 ^ " " ^ body b2 ^ ")") elifs) ^ ") " ^ body el ^ ")"
+  | SAssign (tg, e) -> "(assign " ^ show_target tg ^ " " ^ show_expr e ^ ")"
+  | SAssignBlock (tg, f, b) -> "(assignblock " ^ show_target tg ^ " " ^ show_chain f ^ " " ^ body b ^ ")"
+  | SWith (tgs, vals, b) -> "(with (" ^ String.concat " " (List.map show_target tgs) ^ ") " ^ exprs vals ^ " " ^ body b ^ ")"
+  | SAutoescape (e, b) -> "(autoescape " ^ show_expr e ^ " " ^ body b ^ ")"
+  | SBlock (n, sc, rq, b) -> "(block " ^ sstr "s" n ^ " " ^ b01 sc ^ " " ^ b01 rq ^ " " ^ body b ^ ")"
+  | SExtends e -> "(extends " ^ show_expr e ^ ")"
+  | SInclude (e, ign, wc) -> "(include " ^ show_expr e ^ " " ^ b01 ign ^ " " ^ b01 wc ^ ")"
+  | SImport (e, t, wc) -> "(import " ^ show_expr e ^ " " ^ sstr "s" t ^ " " ^ b01 wc ^ ")"
+  | SFromImport (e, names, wc) ->
+      "(from " ^ show_expr e ^ " (" ^ String.concat " " (List.map (fun (n, a) -> "(" ^ sstr "s" n ^ " " ^ (match a with Some x -> sstr "s" x | None -> "_") ^ ")") names) ^ ") " ^ b01 wc ^ ")"
+  | SMacro (n, args, defs, b) -> "(macro " ^ sstr "s" n ^ " " ^ strs args ^ " " ^ exprs defs ^ " " ^ body b ^ ")"
+  | SCallBlock (args, defs, c, b) -> "(callblock " ^ strs args ^ " " ^ exprs defs ^ " " ^ show_expr c ^ " " ^ body b ^ ")"
+  | SFilterBlock (f, b) -> "(filterblock " ^ show_chain f ^ " " ^ body b ^ ")"
+let show_sres = function
+  | SOk b -> "ok (" ^ String.concat " " (List.map show_stmt b) ^ ")"
+  | SSyntaxErr l -> "err " ^ string_of_int (int_of_nat l)
+  | SUnsup -> "unsup" | SFuelStmt -> "fuel-stmt" | SFuelTag -> "fuel-tag" | SFuelExpr -> "fuel-expr"
+  | SInternal t -> "internal " ^ string_of_int (int_of_nat t)
 
 let do_eval c e rho =
   let n = S (depth e) in
@@ -319,6 +363,7 @@ let () =
              | OutRun t -> "X " ^ py t)
         | [A "parse"; L toks] -> show_pres (parse_expr (List.map tok_of_sx toks))
         | [A "pprint"; L toks] -> show_pres (parse_print (List.map tok_of_sx toks))
+        | [A "sparse"; L toks] -> show_sres (parse (List.map stok_of_sx toks))
         | [A "unparse"; e] ->
             let e = expr_of_sx e in
             let ts = unparse e in
